@@ -250,7 +250,10 @@ impl ModelTl {
                         add(f.value);
                     }
                 }
-                let tol = 8.0 * ulp32(lo.abs().max(hi.abs()) as f32) as f64 + int_slack + (hi - lo).abs() * 1e-5;
+                // the easing output itself is an f32 (quantised to ~2^-24 near 1): its rounding times
+                // the largest value step of the property is part of the budget here too
+                let (al, ah) = all_vals();
+                let tol = 8.0 * ulp32(lo.abs().max(hi.abs()) as f32) as f64 + int_slack + (hi - lo).abs() * 1e-5 + (ah - al) * 2f64.powi(-20);
                 // a window that is wider than a segment can hide a steep easing between its sample
                 // points; degrade to the full range rule when the window spans more than two frames.
                 let frames_in = fr.iter().filter(|f| f.pos >= pl && f.pos <= phh).count();
